@@ -65,10 +65,11 @@ Theorem C04_refine_degenerate_range_rejected : forall lsq hyp dev g st vmin_o vm
 Proof. exact refine_degenerate_range. Qed.
 Print Assumptions C04_refine_degenerate_range_rejected.
 
-(* no error value: matching dimension, defined levels, valid candidate *)
+(* no error value: matching dimension, valid candidate, increasing levels when they are fitted (an empty fit region
+   with automatic levels falls back to the defaults 0 / 1) *)
 Theorem C04_refine_ok : forall lsq hyp dev g st vmin_o vmax_o adjust c,
   lsq_spec lsq -> wf c -> valid g c -> length (d_pos c) = g_dim g ->
-  (exists vmin vmax, levels vmin_o vmax_o st = Some (vmin, vmax) /\ (adjust = false \/ vmin < vmax)) ->
+  (adjust = false \/ level_min vmin_o st < level_max vmax_o st) ->
   exists r, refine lsq hyp dev g st vmin_o vmax_o adjust c = ROk r.
 Proof. exact refine_ok. Qed.
 Print Assumptions C04_refine_ok.
@@ -130,7 +131,8 @@ Print Assumptions C04_fit_region_dilation.
 
 (* non-vacuity: an optimiser satisfying both specifications; a spherical candidate across the periodic boundary of
    a Cartesian grid (promoted, default width, wrapped into the box); an off-axis axisymmetric candidate on a periodic
-   cylinder with a moving "optimiser" (x, y untouched, z wrapped); the two error values of degenerate inputs *)
+   cylinder with a moving "optimiser" (x, y untouched, z wrapped); the error value of a degenerate range; an empty
+   fit region with automatic fitted levels (defaults 0 / 1) *)
 Example C04_nonvacuous :
   (lsq_spec lsq_identity /\ lsq_stationary lsq_identity) /\
   res_is (refine lsq_identity (fun _ => 0) (fun _ _ _ => []) ex_cart (Some (0, 1)) None None true ex_sph)
@@ -139,6 +141,7 @@ Example C04_nonvacuous :
     {| d_cls := RP3DAxi; d_pos := [3 # 10; 4 # 10; 15 # 4]; d_rad := 5 # 4; d_width := Some (3 # 4);
        d_amp := [1 # 20; -(1 # 5)] |} = true /\
   refine lsq_identity (fun _ => 0) (fun _ _ _ => []) ex_cart (Some (1, 1)) None None true ex_sph = RErr EBoundsNotStrict /\
-  refine lsq_identity (fun _ => 0) (fun _ _ _ => []) ex_cart None None (Some 1) false ex_sph = RErr EEmptyRegion /\
+  res_is (refine lsq_identity (fun _ => 0) (fun _ _ _ => []) ex_cart None None None true ex_sph)
+    {| d_cls := RDiffuse; d_pos := [1; 1]; d_rad := 1; d_width := Some 1; d_amp := [] |} = true /\
   wf ex_sph /\ wf ex_axi /\ valid ex_cart ex_sph /\ valid ex_cyl ex_axi /\ wf_grid ex_cart /\ wf_grid ex_cyl.
 Proof. exact (conj identity_lsq_spec ex_runs). Qed.
